@@ -133,13 +133,13 @@ row1!(sound_slicing_union_of_arrays, 1 << K_SLICING, T_U_ARRS, b_slice);
 // ---- literals ---------------------------------------------------------------------------------
 fn b_array(t1: Type, t2: Type) -> Option<Instruction> {
     let element_type = t1.clone().concat(t2.clone());
-    Some(crate::instruction::array::Array { instructions: Arc::from(vec![iws(local("a", t1)), iws(local("b", t2))]), element_type }.into())
+    Some(crate::instruction::array::Array { instructions: Arc::from(crate::vv![iws(local("a", t1)), iws(local("b", t2))]), element_type }.into())
 }
 fn b_tuple(t1: Type, t2: Type) -> Option<Instruction> {
-    Some(crate::instruction::tuple::Tuple { elements: Arc::from(vec![iws(local("a", t1)), iws(local("b", t2))]) }.into())
+    Some(crate::instruction::tuple::Tuple { elements: Arc::from(crate::vv![iws(local("a", t1)), iws(local("b", t2))]) }.into())
 }
 fn b_struct(t1: Type, t2: Type) -> Option<Instruction> {
-    Some(Struct { idents: Arc::from(vec![Arc::<str>::from("x"), Arc::<str>::from("y")]), values: Arc::from(vec![iws(local("a", t1)), iws(local("b", t2))]) }.into())
+    Some(Struct { idents: Arc::from(crate::vv![Arc::<str>::from("x"), Arc::<str>::from("y")]), values: Arc::from(crate::vv![iws(local("a", t1)), iws(local("b", t2))]) }.into())
 }
 fn b_repeat(t1: Type, t2: Type) -> Option<Instruction> {
     if !t2.matches(&Type::Int) { return None; }
@@ -203,7 +203,7 @@ fn b_if(t1: Type, t2: Type) -> Option<Instruction> {
     Some(IfElse { condition: iws(local("c", Type::Bool)), if_true: iws(local("a", t1)), if_false: iws(local("b", t2)) }.into())
 }
 fn b_block(t1: Type, t2: Type) -> Option<Instruction> {
-    Some(Block { instructions: Arc::from(vec![iws(local("a", t1)), iws(local("b", t2))]) }.into())
+    Some(Block { instructions: Arc::from(crate::vv![iws(local("a", t1)), iws(local("b", t2))]) }.into())
 }
 fn b_if_set(t1: Type, t2: Type) -> Option<Instruction> {
     // if v: int|[int] = a { v } else { b }
@@ -243,13 +243,13 @@ fn call_identity(t: Ty, param_named_like_function: bool) {
     let ret: Instruction = UnaryOperation { instruction: local(if param_named_like_function { "f" } else { "p" }, rt.clone()), op: UnaryOperator::Return }.into();
     let f: Arc<Function> = Arc::new(Function {
         ident: Some("f".into()),
-        params: Params(Arc::from(vec![Param { name, var_type: rt.clone() }])),
-        body: Body::Lang(Arc::from(vec![iws(ret)])),
+        params: Params(Arc::from(crate::vv![Param { name, var_type: rt.clone() }])),
+        body: Body::Lang(Arc::from(crate::vv![iws(ret)])),
         return_type: rt.clone(),
     });
     let mut k = 0;
     while k < n_vals(t) {
-        let r = crate::instruction::function::call::exec(Variable::Function(f.clone()), Variable::Tuple(Arc::from(vec![val(t, k)])));
+        let r = crate::instruction::function::call::exec(Variable::Function(f.clone()), Variable::Tuple(Arc::from(crate::vv![val(t, k)])));
         match r {
             Ok(v) => assert!(sound(&v, &rt)),
             Err(_) => (),
@@ -274,7 +274,7 @@ call_row!(sound_function_result_array, T_ARR_INT, true);
 #[kani::stub(alloc::fmt::format, crate::verif_common::stub_format)]
 pub fn sound_function_falls_off_its_end() {
     declare(0);
-    let g: Arc<Function> = Arc::new(Function { ident: None, params: Params(Arc::from(Vec::new())), body: Body::Lang(Arc::from(vec![iws(Instruction::Variable(Variable::Int(1)))])), return_type: Type::Void });
+    let g: Arc<Function> = Arc::new(Function { ident: None, params: Params(Arc::from(Vec::new())), body: Body::Lang(Arc::from(crate::vv![iws(Instruction::Variable(Variable::Int(1)))])), return_type: Type::Void });
     let r = g.exec_with_args(&[]);
     assert!(matches!(r, Ok(ref v) if sound(v, &Type::Void)));
     kani::cover!(true);
